@@ -41,8 +41,8 @@ Proof.
   set (s4 := remove_lock s3 k r) in *.
   set (m4 := m2 <| m_cur := None |>) in *.
   destruct D4 as (D1 & D2 & D3 & D4 & D5 & D6 & D7 & D8).
-  destruct (unref_rm_spec s4 r k l4 m4 R4) as (E5 & DR5); auto.
-  { rewrite D3. reflexivity. }
+  assert (K4 : l_key l4 = k) by (rewrite D3; reflexivity).
+  destruct (unref_rm_spec s4 r k l4 m4 R4 K4 M4 D1 D2) as (E5 & DR5).
   fold (unref_rm s4 r k).
   eexists. eexists. split; [reflexivity|]. split.
   - split.
